@@ -178,3 +178,178 @@ Proof.
   repeat match goal with |- context [Rltb ?a ?b] =>
     let H := fresh in destruct (Rltb a b) eqn:H; [apply Rltb_true in H|apply Rltb_false in H]; try lra end; reflexivity.
 Qed.
+
+(** ** source-text tie (translator/py2coq_c07.py -> gen/Gen_c07.v, re-generated from the repository on every run)
+
+    The [gen_*] definitions are the statements of eqsig/fns/frequency.py (calc_smooth_fa_spectrum, its deprecated alias
+    generate_smooth_fa_spectrum, calc_smoothing_matrix_konno_1998, calc_smooth_fa_spectrum_w_custom_matrix,
+    get_sig_array_indexes_range, get_sig_freq_range) and eqsig/im.py (calc_bandwidth_freqs / f_min / f_max) read by a fail-closed
+    Python-ast translator: temporaries substituted, the 2-d broadcasting read column by column (one column per target
+    frequency), np.sin / np.log10 kept as parameters [sin], [log10], every partial read ([v[0]], [max(v)],
+    [np.where(..)[0][0]], [v[k]], np.take) a [match] whose [None] branch is the exception ([PyRaise IndexError / ValueError]).
+    The theorems below say: for ALL inputs, every [NumOps] instance and every kernel pair the generated definition is the
+    model of model/M_smooth.v behind the guard under which the code returns at all; at R with the real sine and
+    log10 = ln / ln 10 the window is [ko_w], so the generated smoothing IS [smooth] / [smoothing_matrix] the theorems above are
+    about.  A changed operand / index / sign / literal / comparison in those functions changes the generated text and breaks
+    one of these proofs.
+    Trusted in this tie: the translator's reading of each accepted statement shape (header of translator/py2coq_c07.py,
+    lib/PyRes.v), in particular the column-wise reading of the (n,1) x (1,m) broadcasts (NumPy raises or stretches a length-1
+    axis where the [.._shapes] predicate is false) and the object layer (which arrays the attributes hold).  Still with the
+    correspondence only: the float kernels (np.sin, np.log10, the 0/0 -> nan that np.where then replaces), binary64 rounding,
+    and the Signal-level callers (smooth_fa_spectrum property, setters). *)
+From EQ Require Import lib.PyVal lib.NpHelpers lib.PyRes gen.Gen_c07 proofs.P_gen_c07.
+
+(** calc_smooth_fa_spectrum: raises IndexError on an empty frequency array, otherwise the model with the window
+    (sin(a)/a)^4, a = band*log10(f/fc), 1 where a == 0; smooth_fa_frequencies=None uses the non-zero Fourier frequencies *)
+Theorem C07_smooth_fa_is_source : forall (T : Type) (ops : NumOps T) (sin log10 : T -> T) (band : T) (freqs amps : list T)
+    (targets : option (list T)),
+  let w := fun f fc => let a := nmul band (log10 (ndiv f fc)) in if neqb a n0 then n1 else npow (ndiv (sin a) a) 4 in
+  gen_smooth_fa sin log10 band freqs amps targets =
+  match freqs with
+  | [] => PyRaise IndexError
+  | _ :: _ => PyOk (match targets with Some t => smooth_gen w freqs amps t | None => smooth_gen_default w freqs amps end)
+  end.
+Proof. intros T ops sin log10 band freqs amps targets. cbv zeta. exact (P_gen_c07.gen_smooth_fa_eq sin log10 band freqs amps targets). Qed.
+Theorem C07_smooth_fa_is_source_R : forall (b : R) (freqs amps targets : list R),
+  gen_smooth_fa sin M_smooth.log10 b freqs amps (Some targets) =
+    match freqs with [] => PyRaise IndexError | _ :: _ => PyOk (smooth b freqs amps targets) end /\
+  gen_smooth_fa sin M_smooth.log10 b freqs amps None =
+    match freqs with [] => PyRaise IndexError | _ :: _ => PyOk (smooth_default b freqs amps) end.
+Proof. intros b freqs amps targets. split; [exact (P_gen_c07.gen_smooth_fa_R b freqs amps targets) | exact (P_gen_c07.gen_smooth_fa_default_R b freqs amps)]. Qed.
+(** the deprecated alias generate_smooth_fa_spectrum passes its arguments on in the right order *)
+Theorem C07_smooth_fa_alias_is_source : forall (T : Type) (ops : NumOps T) (sin log10 : T -> T) (band : T) (freqs amps : list T)
+    (targets : option (list T)),
+  gen_smooth_fa_alias sin log10 band freqs amps targets = gen_smooth_fa sin log10 band freqs amps targets.
+Proof. intros. exact (P_gen_c07.gen_smooth_fa_alias_eq sin log10 band freqs amps targets). Qed.
+(** the broadcast abs(fa_spectrum)[:, np.newaxis] * wb_vals is legal exactly under the hypothesis [length am = length fr] of
+    C07_between_min_max / C07_constant_reproduced *)
+Theorem C07_smooth_fa_shapes_is_source : forall (T : Type) (ops : NumOps T) (band : T) (freqs amps : list T) (targets : option (list T)),
+  freqs <> [] ->
+  (gen_smooth_fa_shapes band freqs amps targets = true <-> length (drop_zero_a freqs amps) = length (drop_zero_f freqs)).
+Proof. intros T ops. exact (@P_gen_c07.gen_smooth_fa_shapes_iff T ops). Qed.
+
+(** calc_smoothing_matrix_konno_1998 (the matrix as the list of its columns) *)
+Theorem C07_smoothing_matrix_is_source : forall (T : Type) (ops : NumOps T) (sin log10 : T -> T) (band : T) (freqs : list T)
+    (targets : option (list T)),
+  let w := fun f fc => let a := nmul band (log10 (ndiv f fc)) in if neqb a n0 then n1 else npow (ndiv (sin a) a) 4 in
+  gen_smoothing_matrix sin log10 band freqs targets =
+  match freqs with
+  | [] => PyRaise IndexError
+  | _ :: _ => PyOk (matrix_gen w freqs (match targets with Some t => t | None => drop_zero_f freqs end))
+  end.
+Proof. intros T ops sin log10 band freqs targets. cbv zeta. exact (P_gen_c07.gen_smoothing_matrix_eq sin log10 band freqs targets). Qed.
+Theorem C07_smoothing_matrix_is_source_R : forall (b : R) (freqs targets : list R),
+  gen_smoothing_matrix sin M_smooth.log10 b freqs (Some targets) =
+    match freqs with [] => PyRaise IndexError | _ :: _ => PyOk (smoothing_matrix b freqs targets) end /\
+  gen_smoothing_matrix sin M_smooth.log10 b freqs None =
+    match freqs with [] => PyRaise IndexError | _ :: _ => PyOk (smoothing_matrix b freqs (drop_zero_f freqs)) end.
+Proof. intros b freqs targets. split; [exact (P_gen_c07.gen_smoothing_matrix_R b freqs targets) | exact (P_gen_c07.gen_smoothing_matrix_default_R b freqs)]. Qed.
+
+(** calc_smooth_fa_spectrum_w_custom_matrix: np.dot(abs(fa_spectrum[1:]), M), never raises in this reading; the product is
+    NumPy's when every column has the length of the spectrum without bin 0 *)
+Theorem C07_custom_matrix_is_source : forall (T : Type) (ops : NumOps T) (amps : list T) (cols : list (list T)),
+  gen_smooth_w_matrix amps cols = PyOk (smooth_w_matrix amps cols) /\
+  gen_smooth_w_matrix_shapes amps cols = forallb (fun col => Nat.eqb (length (tl amps)) (length col)) cols.
+Proof. intros T ops amps cols. split; [exact (P_gen_c07.gen_smooth_w_matrix_eq amps cols) | exact (P_gen_c07.gen_smooth_w_matrix_shapes_eq amps cols)]. Qed.
+
+(** bandwidth limits: ValueError from max() on an empty spectrum, IndexError when no sample exceeds the limit or when the
+    frequency array is too short for an index, otherwise the frequencies at the model's first / last index *)
+Theorem C07_sig_idx_range_is_source : forall (T : Type) (ops : NumOps T) (ratio : T) (s : list T),
+  gen_sig_idx_range ratio s =
+  match s with
+  | [] => PyRaise ValueError
+  | _ :: _ => match sig_idx_range ratio s with None => PyRaise IndexError | Some p => PyOk p end
+  end.
+Proof. intros T ops ratio s. exact (P_gen_c07.gen_sig_idx_range_eq ratio s). Qed.
+Theorem C07_sig_freq_range_is_source : forall (T : Type) (ops : NumOps T) (ratio : T) (s freqs : list T),
+  gen_sig_freq_range ratio s freqs =
+  match s with
+  | [] => PyRaise ValueError
+  | _ :: _ =>
+    match sig_idx_range ratio s with
+    | None => PyRaise IndexError
+    | Some (i, j) =>
+      match nth_error freqs i with
+      | None => PyRaise IndexError
+      | Some a => match nth_error freqs j with None => PyRaise IndexError | Some b => PyOk [a; b] end
+      end
+    end
+  end.
+Proof. intros T ops ratio s freqs. exact (P_gen_c07.gen_sig_freq_range_eq ratio s freqs). Qed.
+Theorem C07_bandwidth_freqs_is_source : forall (T : Type) (ops : NumOps T) (ratio : T) (s freqs : list T),
+  gen_bandwidth_freqs ratio s freqs =
+  match s with
+  | [] => PyRaise ValueError
+  | _ :: _ =>
+    match bw_idx ratio s with
+    | None => PyRaise IndexError
+    | Some (i, j) =>
+      match nth_error freqs i with
+      | None => PyRaise IndexError
+      | Some a => match nth_error freqs j with None => PyRaise IndexError | Some b => PyOk (a, b) end
+      end
+    end
+  end.
+Proof. intros T ops ratio s freqs. exact (P_gen_c07.gen_bandwidth_freqs_eq ratio s freqs). Qed.
+Theorem C07_bandwidth_f_min_f_max_is_source : forall (T : Type) (ops : NumOps T) (ratio : T) (s freqs : list T),
+  let one (r : option nat) : pyres T :=
+    match s with
+    | [] => PyRaise ValueError
+    | _ :: _ => match r with
+                | None => PyRaise IndexError
+                | Some i => match nth_error freqs i with None => PyRaise IndexError | Some a => PyOk a end
+                end
+    end in
+  gen_bandwidth_f_min ratio s freqs = one (option_map fst (bw_idx ratio s)) /\
+  gen_bandwidth_f_max ratio s freqs = one (option_map snd (bw_idx ratio s)).
+Proof.
+  intros T ops ratio s freqs. cbv zeta.
+  split; [exact (P_gen_c07.gen_bandwidth_f_min_eq ratio s freqs) | exact (P_gen_c07.gen_bandwidth_f_max_eq ratio s freqs)].
+Qed.
+(** with a frequency array at least as long as the spectrum (the object holds arrays of equal length) no look-up fails and the
+    value of the call ([None] = it raises) is the model's [bandwidth_freqs] / [sig_freq_range] of the theorems above *)
+Theorem C07_bandwidth_value_is_source : forall (T : Type) (ops : NumOps T) (ratio : T) (s freqs : list T),
+  (length s <= length freqs)%nat ->
+  res_value (gen_bandwidth_freqs ratio s freqs) = bandwidth_freqs ratio s freqs /\
+  res_value (gen_bandwidth_f_min ratio s freqs) = option_map fst (bandwidth_freqs ratio s freqs) /\
+  res_value (gen_bandwidth_f_max ratio s freqs) = option_map snd (bandwidth_freqs ratio s freqs) /\
+  res_value (gen_sig_freq_range ratio s freqs) = option_map (fun p => [fst p; snd p]) (sig_freq_range ratio s freqs).
+Proof.
+  intros T ops ratio s freqs Hlen. repeat split.
+  - exact (P_gen_c07.gen_bandwidth_freqs_value ratio s freqs Hlen).
+  - exact (P_gen_c07.gen_bandwidth_f_min_value ratio s freqs Hlen).
+  - exact (P_gen_c07.gen_bandwidth_f_max_value ratio s freqs Hlen).
+  - exact (P_gen_c07.gen_sig_freq_range_value ratio s freqs Hlen).
+Qed.
+(** the defaults of the Python signatures: band=40, smooth_fa_frequencies=None, ratio=15 / 0.707 *)
+Theorem C07_defaults_are_source :
+  @gen_smooth_fa_default_band R _ = 40 /\ @gen_smooth_fa_alias_default_band R _ = 40 /\ @gen_smoothing_matrix_default_band R _ = 40 /\
+  @gen_smooth_fa_default_smooth_fa_frequencies R = None /\ @gen_smoothing_matrix_default_smooth_fa_frequencies R = None /\
+  @gen_sig_idx_range_default_ratio R _ = 15 /\ @gen_sig_freq_range_default_ratio R _ = 15 /\
+  @gen_bandwidth_freqs_default_ratio R _ = 0.707 /\ @gen_bandwidth_f_min_default_ratio R _ = 0.707 /\
+  @gen_bandwidth_f_max_default_ratio R _ = 0.707.
+Proof. exact P_gen_c07.gen_c07_defaults_R. Qed.
+
+(** end to end: whatever the SOURCE returns for explicit targets (operands of equal length, columns not identically zero) lies
+    between the smallest and the largest remaining |amplitude| *)
+Theorem C07_source_between_min_max : forall (b : R) (freqs amps targets out : list R),
+  gen_smooth_fa sin M_smooth.log10 b freqs amps (Some targets) = PyOk out ->
+  gen_smooth_fa_shapes b freqs amps (Some targets) = true ->
+  (forall fc, In fc targets -> 0 < nsum (ko_raw b (drop_zero_f freqs) fc)) ->
+  forall y, In y out -> amin (vabs (drop_zero_a freqs amps)) <= y <= amax (vabs (drop_zero_a freqs amps)).
+Proof. exact P_gen_c07.source_between_min_max. Qed.
+(** non-vacuity of the tie: a source run that returns, and one that raises *)
+Example C07_source_nonvacuous :
+  gen_bandwidth_freqs (1/2) [1; 3; 2; 1] [1; 2; 3; 4] = PyOk (2, 3) /\
+  gen_bandwidth_freqs (1/2) ([] : list R) [1; 2; 3; 4] = PyRaise ValueError /\
+  gen_smooth_fa_shapes 5 [0; 1; 2] [7; 1; 3] (Some [1]) = true /\
+  exists out, gen_smooth_fa sin M_smooth.log10 5 [0; 1; 2] [7; 1; 3] (Some [1]) = PyOk out /\ length out = 1%nat.
+Proof.
+  split; [|split; [reflexivity|split]].
+  - pose proof (proj1 (C07_bandwidth_value_is_source R _ (1/2) [1; 3; 2; 1] [1; 2; 3; 4] (le_n _))) as Hv.
+    rewrite (proj2 (proj2 (proj2 C07_nonvacuous))) in Hv.
+    destruct (gen_bandwidth_freqs _ _ _); cbn [res_value] in Hv; [now injection Hv as -> | discriminate].
+  - apply C07_smooth_fa_shapes_is_source; [discriminate|].
+    unfold drop_zero_a, drop_zero_f. numR. rewrite (proj2 (Reqb_true 0 0) eq_refl). reflexivity.
+  - eexists. split; [exact (proj1 (C07_smooth_fa_is_source_R 5 [0; 1; 2] [7; 1; 3] [1]))|]. apply P_C07.smooth_length.
+Qed.
